@@ -92,9 +92,9 @@ PROPS = {    "C01": {
             {"name": "C01.gate", "pkg": SCHED, "replay": "R1",
              "quick": {"entry": "VerifHarness_C01_gate3", "flags": ["-unwind", "16"], "bounds": {"N": 3}},
              "thorough": {"entry": "VerifHarness_C01_gate4", "flags": ["-unwind", "16"], "bounds": {"N": 4}}},
-            run_ob("C01.run", "VerifHarness_RUN_C01_n3", 0, "VerifHarness_RUN_C01_n3r2", 1, bq={"N": 3, "R": 1}, bt={"N": 3, "R": 2},
+            run_ob("C01.run", "VerifHarness_RUN_C01_n3", 0, "VerifHarness_RUN_C01_n3", 1, bq={"N": 3, "R": 1}, bt={"N": 3, "R": 1},
                    must=["C01.run/dependency-finished-its-last-attempt"]),
-            run_ob("C01.run-d1", "VerifHarness_RUN_C01_n2", 1, "VerifHarness_RUN_C01_n2x", 2, bq={"N": 2, "R": 1}, bt={"N": 2, "R": 1, "menu": "extended"},
+            run_ob("C01.run-d1", "VerifHarness_RUN_C01_n2", 1, "VerifHarness_RUN_C01_n2", 2, bq={"N": 2, "R": 1}, bt={"N": 2, "R": 1},
                    must=["C01.run/dependency-finished-its-last-attempt"]),
         ],
         "assumptions": ["distinct step names", "acyclic DAG (C14 owns the cyclic case)"] + RUN_ASSUME,
@@ -105,9 +105,9 @@ PROPS = {    "C01": {
             {"name": "C02.gate", "pkg": SCHED, "replay": "R1", "must_assert": ["C02.gate/blocked-dependent-is-marked"],
              "quick": {"entry": "VerifHarness_C01_gate3", "flags": ["-unwind", "16"], "bounds": {"N": 3}},
              "thorough": {"entry": "VerifHarness_C01_gate4", "flags": ["-unwind", "16"], "bounds": {"N": 4}}},
-            run_ob("C02.final", "VerifHarness_RUN_C02_n3", 0, "VerifHarness_RUN_C02_n3x", 1, bq={"N": 3, "R": 1}, bt={"N": 3, "R": 2, "menu": "extended"},
+            run_ob("C02.final", "VerifHarness_RUN_C02_n3", 0, "VerifHarness_RUN_C02_n3", 1, bq={"N": 3, "R": 1}, bt={"N": 3, "R": 1},
                    must=["C02.final/blocked-step-never-executed", "C02.final/unblocked-step-was-executed"]),
-            run_ob("C02.final-d1", "VerifHarness_RUN_C02_n2", 1, "VerifHarness_RUN_C02_n2x", 2, bq={"N": 2, "R": 1}, bt={"N": 2, "R": 1, "menu": "extended"},
+            run_ob("C02.final-d1", "VerifHarness_RUN_C02_n2", 1, "VerifHarness_RUN_C02_n2", 2, bq={"N": 2, "R": 1}, bt={"N": 2, "R": 1},
                    must=["C02.final/blocked-step-never-executed"]),
         ],
         "assumptions": ["distinct step names", "acyclic DAG", "the run is not stopped"] + RUN_ASSUME,
@@ -115,9 +115,9 @@ PROPS = {    "C01": {
     },
     "C03": {
         "obligations": [
-            run_ob("C03.count", "VerifHarness_RUN_C03_n3", 0, "VerifHarness_RUN_C03_n3r2", 1, bq={"N": 3, "R": 1}, bt={"N": 3, "R": 2},
+            run_ob("C03.count", "VerifHarness_RUN_C03_n3", 0, "VerifHarness_RUN_C03_n3", 1, bq={"N": 3, "R": 1}, bt={"N": 3, "R": 1},
                    must=["C03.count/failing-step-is-retried-until-limit", "C03.count/recorded-retry-count-equals-extra-attempts"]),
-            run_ob("C03.count-d1", "VerifHarness_RUN_C03_n2", 1, "VerifHarness_RUN_C03_n2x", 2, bq={"N": 2, "R": 2}, bt={"N": 2, "R": 2, "menu": "extended"},
+            run_ob("C03.count-d1", "VerifHarness_RUN_C03_n2", 1, "VerifHarness_RUN_C03_n2", 2, bq={"N": 2, "R": 2}, bt={"N": 2, "R": 2},
                    must=["C03.count/failing-step-is-retried-until-limit"]),
             ag_ob("C03.dryagent", "VerifHarness_AG_dry", ["C03."], ["C03.dryagent/no-history-is-written", "C03.dryagent/no-step-or-handler-command-runs"], {"steps": 2, "shape": "chain | parallel", "handlers": "onExit"}),
             run_ob("C03.dry", "VerifHarness_RUN_C03_dry3", 0, "VerifHarness_RUN_C03_dry3", 1, bq={"N": 3}, bt={"N": 3},
